@@ -632,6 +632,11 @@ pub fn crate_file(
 ) -> Option<Vec<u8>> {
 	let approx = *[0u32, 7, 30, 65536].choose(rng).unwrap();
 	let level = if rng.gen_bool(0.5) { None } else { Some(*[1u8, 3, 9, 10, 22, 200, 255].choose(rng).unwrap()) };
+	// the one-call entry point (its own configuration, default block size, a sync marker of its
+	// own choosing - the reader takes the marker from the header)
+	if rng.gen_bool(0.15) {
+		return serde_avro_fast::object_container_file_encoding::write_all(schema, compression(codec, level), Vec::new(), values.iter()).ok();
+	}
 	let mut config = serde_avro_fast::ser::SerializerConfig::new(schema);
 	let mut w = WriterBuilder::new(&mut config)
 		.compression(compression(codec, level))
@@ -639,6 +644,16 @@ pub fn crate_file(
 		.sync_marker(sync.try_into().unwrap())
 		.build(Vec::new())
 		.ok()?;
+	if rng.gen_bool(0.2) {
+		// all values through `serialize_all`, the sink looked at through the accessors
+		w.serialize_all(values.iter()).ok()?;
+		let seen = w.inner().len();
+		let seen_mut = w.inner_mut().len();
+		if seen != seen_mut {
+			return None;
+		}
+		return w.into_inner().ok();
+	}
 	for v in values {
 		w.serialize(v).ok()?;
 		if rng.gen_bool(0.2) {
